@@ -84,19 +84,13 @@ func (s *metricSchemaStore) GetSchema(id metric.ID) (schema *metric.Schema, err 
 
 // genFieldID generates field id if field not exist.
 func (s *metricSchemaStore) genFieldID(id metric.ID, f field.Meta, limits *models.Limits) (fID field.ID, err error) {
-	schema, err := s.GetSchema(id)
-	if err != nil {
-		return 0, err
-	}
 	s.lock.Lock()
 	defer s.lock.Unlock()
 
-	if schema == nil {
-		// create new schema
-		schema = &metric.Schema{}
+	schema, err := s.getOrCreateSchemaUnderLock(id)
+	if err != nil {
+		return 0, err
 	}
-	// put into schema if schema not exist under mutable store
-	s.mutable.PutIfNotExist(uint32(id), schema)
 
 	fm, ok := schema.Fields.Find(f.Name)
 	if ok {
@@ -117,19 +111,13 @@ func (s *metricSchemaStore) genFieldID(id metric.ID, f field.Meta, limits *model
 func (s *metricSchemaStore) genTagKeyID(id metric.ID, tagKey []byte, limits *models.Limits,
 	createFn func() uint32,
 ) (tagKeyID tag.KeyID, err error) {
-	schema, err := s.GetSchema(id)
-	if err != nil {
-		return 0, err
-	}
 	s.lock.Lock()
 	defer s.lock.Unlock()
 
-	if schema == nil {
-		// create new schema
-		schema = &metric.Schema{}
+	schema, err := s.getOrCreateSchemaUnderLock(id)
+	if err != nil {
+		return 0, err
 	}
-	// put into schema if schema not exist under mutable store
-	s.mutable.PutIfNotExist(uint32(id), schema)
 
 	tm, ok := schema.TagKeys.Find(strutil.ByteSlice2String(tagKey))
 	if ok {
@@ -146,6 +134,42 @@ func (s *metricSchemaStore) genTagKeyID(id metric.ID, tagKey []byte, limits *mod
 	}
 	schema.TagKeys = append(schema.TagKeys, tm)
 	return tm.ID, nil
+}
+
+// getOrCreateSchemaUnderLock returns the schema instance which new field/tag key must be added into,
+// puts it into mutable store if not exist.
+// NOTE: must lookup under the write lock, if lookup the schema before locking, another goroutine maybe
+// creates/flushes a schema for the same metric between lookup and lock, then the same field/tag key
+// gets different ids(or different fields get the same id) in different schema instances.
+func (s *metricSchemaStore) getOrCreateSchemaUnderLock(id metric.ID) (schema *metric.Schema, err error) {
+	key := uint32(id)
+	if exist, ok := s.mutable.Get(key); ok {
+		return exist, nil
+	}
+	if s.immutable != nil {
+		schema, _ = s.immutable.Get(key)
+	}
+	if schema == nil {
+		cached, ok := s.cache.Get(id)
+		if ok {
+			schema = cached
+		} else {
+			schema, err = s.getSchemaFromKV(id)
+			if err != nil {
+				return nil, err
+			}
+			if schema != nil {
+				s.cache.Add(id, schema)
+			}
+		}
+	}
+	if schema == nil {
+		// create new schema
+		schema = &metric.Schema{}
+	}
+	// put into schema if schema not exist under mutable store
+	s.mutable.Put(key, schema)
+	return schema, nil
 }
 
 // getSchemaFromKV gets schema from kv store.
